@@ -362,7 +362,7 @@ Proof.
   { intros _. exists ["a"; "b"]%string. repeat split; try reflexivity.
     repeat constructor; reflexivity. }
   split.
-  { simpl. repeat split; try discriminate. reflexivity. }
+  { simpl. repeat split; discriminate. }
   exists 2%nat, 1%nat, 1%nat. split; reflexivity.
 Qed.
 
